@@ -488,6 +488,9 @@ func c02Generate(r *rand.Rand, kind c02Kind, blank bool) *c02Layout {
 			if trail && variant/9%3 == 0 {
 				// two trailing comments on the element's line: a block comment and a line comment
 				el[len(el)-1] += " /* U " + tag + " */ // T " + tag
+			} else if trail && variant/9%3 == 1 && variant%2 == 0 {
+				// a trailing block comment that continues on a second line
+				el[len(el)-1] += " /* U " + tag + "\n\t\t\t   V " + tag + " */"
 			} else if trail {
 				el[len(el)-1] += " // T " + tag
 			}
